@@ -851,13 +851,22 @@ func (d *stat) concurrentRound(i int) {
 	if len(reqs) > 4 {
 		reqs = reqs[:4]
 	}
+	// controller-runtime never reconciles one key in two workers at a time: a NodeClaim whose informer delivery runs in
+	// this round is not also finalised (= deleted and delivered again) in this round
+	delivering := map[string]bool{}
 	for _, rq := range reqs {
 		rq := rq
 		delete(d.backlog, rq)
+		if rq.Kind == "NodeClaim" {
+			delivering[rq.Name] = true
+		}
 		add("informer:"+rq.Name, func() { d.guard("informer", func() { _ = d.w.deliver(rq) }) })
 	}
 	for _, n := range e.ClaimNames() {
 		n := n
+		if delivering[n] {
+			continue
+		}
 		if nc := d.claim(n); nc != nil && nc.DeletionTimestamp != nil && d.rng.Intn(2) == 0 {
 			add("finalize:"+n, func() {
 				d.mu.Lock()
